@@ -113,3 +113,39 @@ Print Assumptions C20_refusing_responder.
 (* Outside these theorems (see harness/props/C20.json): libp2p's stream negotiation, TCP and the
    Go scheduler; transport failures and context cancellation in the middle of a handshake; more
    than one handshake between the same two nodes. *)
+
+(* ---- composition with C04 and C14 (proofs/Compose_race.v) -----------------------------------------------------
+   model/ConnectRace.v carries its own model of handshake.go's verifyReq / verifyResp over abstract nodes
+   (addresses and peer types are numbers), next to model/Handshake.v (byte strings, oracle answers).
+   [Compose_race.represents enc tcode o role token sig n]: the Handshake-level answers for one request (o: signer,
+   address of the peer id, provider registry; role, token, sig) describe the race model's node n -- enc numbers
+   addresses injectively, tcode numbers role strings.
+   Non-vacuity: Compose_race.ex_registered, ex_system_history. *)
+From MevVerif Require Import lib.Bytes.
+From MevVerif Require model.Handshake proofs.Compose_race.
+
+(* The two models of verifyReq agree on every request: the race model accepts with identity id exactly when the
+   C04 model's verifyReq returns an address A with id = (enc A, tcode role). *)
+Theorem C20_verify_req_models_agree :
+  forall (enc : bytes -> N), (forall x y, enc x = enc y -> x = y) ->
+  forall (tcode : bytes -> N) o role token sig n,
+  Compose_race.represents enc tcode o role token sig n ->
+  forall id,
+    verify_req n (req_of n) = Some id <->
+    exists A, fst (Handshake.verify_req o role token sig) = inl A /\ id = (enc A, tcode role).
+Proof. exact Compose_race.verify_req_models_agree. Qed.
+Print Assumptions C20_verify_req_models_agree.
+
+(* C20 o C04.  Under every schedule, an identity the responder has registered for the initiator is the initiator's
+   proven identity, and C04's admissibility predicate [proves] holds of it: the signature over role ++ token
+   verified and recovered A, A is the address of the authenticated transport identity, and a provider was
+   confirmed by the registry. *)
+Theorem C20_registered_is_admissible :
+  forall (enc : bytes -> N), (forall x y, enc x = enc y -> x = y) ->
+  forall (tcode : bytes -> N) c sched id o role token sig,
+  Compose_race.represents enc tcode o role token sig (ini c) ->
+  registered (run deployed c sched) = Some id ->
+  id = proven_ident (ini c) /\
+  exists A, Handshake.proves o role token sig A /\ id = (enc A, tcode role).
+Proof. exact Compose_race.registered_is_admissible. Qed.
+Print Assumptions C20_registered_is_admissible.
